@@ -93,4 +93,42 @@ Lemma absent_connection_silent sched : forall ss j,
   nth_error ss j = None -> forall o, irun ss ((j, o) :: sched) = irun ss sched.
 Proof. intros ss j Hj o. cbn [irun]. rewrite Hj. reflexivity. Qed.
 
+(* the same for the STATE each connection is left in (what any later operation on it will start from) *)
+Fixpoint final (s : St) (ops : list Op) : St :=
+  match ops with
+  | [] => s
+  | o :: r => final (fst (step s o)) r
+  end.
+
+Fixpoint istates (ss : list St) (sched : list (nat * Op)) : list St :=
+  match sched with
+  | [] => ss
+  | (i, o) :: r =>
+      match nth_error ss i with
+      | None => istates ss r
+      | Some s => istates (upd_nth i (fst (step s o)) ss) r
+      end
+  end.
+
+Theorem interleaving_state_independent sched : forall ss i s,
+  nth_error ss i = Some s -> nth_error (istates ss sched) i = Some (final s (ops_of i sched)).
+Proof.
+  induction sched as [|[j o] r IH]; intros ss i s Hi; [exact Hi|].
+  unfold ops_of. cbn [istates filter fst]. destruct (Nat.eqb_spec j i) as [->|Hne].
+  - rewrite Hi. cbn [map snd final].
+    apply (IH (upd_nth i (fst (step s o)) ss) i (fst (step s o))). apply (nth_upd_same i _ ss s Hi).
+  - destruct (nth_error ss j) as [sj|] eqn:Ej; [|apply (IH ss i s Hi)].
+    apply (IH (upd_nth j (fst (step sj o)) ss) i s). rewrite (nth_upd_other j i _ Hne). exact Hi.
+Qed.
+
+Lemma upd_nth_length i x : forall l, length (upd_nth i x l) = length l.
+Proof. induction i as [|i IH]; intros [|h t]; cbn; try reflexivity. rewrite IH. reflexivity. Qed.
+
+(* no connection appears or disappears through the others' operations *)
+Theorem interleaving_keeps_connections sched : forall ss, length (istates ss sched) = length ss.
+Proof.
+  induction sched as [|[j o] r IH]; intros ss; [reflexivity|]. cbn [istates].
+  destruct (nth_error ss j) as [sj|]; [|apply IH]. rewrite IH. apply upd_nth_length.
+Qed.
+
 End Interleave.
